@@ -19,6 +19,11 @@ CHECKS['C06'] = ('three exhaustive layers: cleavage sites for every protein stri
                  'of {0..n} (n<=7 / 9) x mc 0..4 x semi x min/max for all span builders against a set comprehension; '
                  'end-to-end digest / digest_from_config / sequential_digest for every protein (len<=4 / 5) x 1-3 rules '
                  'x options x 5 return types', 'DESIGN.md section 4 / C06')
+CHECKS['C09'] = ('every string of <=4 (quick) / <=5 (thorough) tokens over a 28-token notation alphabet, every single-'
+                 'character mutation (delete / insert any token / swap / duplicate) of every valid string of the C01 '
+                 'level<=1 space, token pumping up to 8 repeats, and the deferred-validation corpus (14 unresolvable '
+                 'values x 8 slots x mass/comp/fragment/... calls); outcome must be annotation or ValueError, accepted '
+                 'strings must serialize, is_sequence_valid must agree, watchdog for hangs', 'DESIGN.md section 4 / C09')
 NOT_APPLICABLE = {}
 
 
